@@ -137,7 +137,13 @@ func runCase(res *vkit.Result, c Case) {
 		defer smu.Unlock()
 		if !perInstance {
 			if shared == nil {
-				shared = &vkit.RecSchedule{Schedule: schedule.NewConst(rate, rpsDur)}
+				var inner core.Schedule = schedule.NewConst(rate, rpsDur)
+				if c.Seed%2 == 0 {
+					// a shared profile made of several parts (an rps list): crossing a part boundary
+					// must not look like the end of the profile to any instance
+					inner = schedule.NewComposite(schedule.NewConst(rate, rpsDur/3), schedule.NewConst(rate, rpsDur/3), schedule.NewConst(rate, rpsDur-2*(rpsDur/3)))
+				}
+				shared = &vkit.RecSchedule{Schedule: inner}
 			}
 			return shared, nil
 		}
